@@ -166,18 +166,33 @@ def fault_execs(faults, leaky):
 # --------------------------------------------------------------------------------------------
 # (a) writer page statistics
 # --------------------------------------------------------------------------------------------
+HIST_CFG = """CONSTANTS
+ SchemaIds = %s
+ RowChoices = %s
+ Offsets = %s
+ PatIds = %s
+ SplitIds = %s
+ GroupChoices = %s
+""" + GEN_TAIL
+
+
+def stat_histories(chk, schemas, rows, offsets, pats, splits, groups):
+    cases = tlc_cases(chk, "MC_StatsHist", HIST_CFG % tuple(tla_set(x) for x in (schemas, rows, offsets, pats, splits, groups)),
+                      "write histories")
+    return [c["ops"] for c in cases]
+
+
 def part_writer(chk, tier):
     hs = []
     if tier == "quick":
-        hs += wcommon.gen_histories(chk, [4], [2], 1, 2, workers=WORKERS)
-        hs += wcommon.gen_histories(chk, [1, 4, 7, 8], [1, 3, 5, 12], 3, 3, nullmode="runs", simulate=110, depth=50, workers=WORKERS)
-        cfgs = [(0, 1 << 20), (0, 24)]
+        hs += stat_histories(chk, [1, 2], [4], range(10), [1, 3], [2, 5], [1])
+        hs += stat_histories(chk, [5], [3], [0, 3, 6], [1, 2], [1, 2], [2])
+        hs += stat_histories(chk, [3, 4], [4], range(6), [1, 2, 4], [1, 3], [2])
+        cfgs = [(0, 1 << 20), (0, 1)]
     else:
-        hs += wcommon.gen_histories(chk, [4], [1, 2, 3], 1, 2, workers=WORKERS)
-        hs += wcommon.gen_histories(chk, [1, 7], [1, 4], 2, 2, workers=WORKERS, limit=3000)
-        hs += wcommon.gen_histories(chk, [1, 2, 4, 7, 8], [1, 2, 3, 5, 9, 12, 17], 3, 3, nullmode="runs", anyorder=True,
-                                    simulate=900, depth=60, workers=WORKERS)
-        cfgs = [(0, 1 << 20), (0, 24), (0, 64), (1, 24)]
+        hs += stat_histories(chk, [1, 2, 3, 4, 5], [1, 5], range(10), [1, 2, 3, 4, 6], [1, 2, 3, 5], [2])
+        hs += wcommon.gen_histories(chk, [4], [2], 1, 2, workers=WORKERS)
+        cfgs = [(0, 1 << 20), (0, 1), (1, 1)]
     execs, meta, files, faults = wcommon.run_histories(chk, hs, cfgs, modes=("f",), with_file=True, nproc=NPROC, label="a")
     keep = ("Create", "WriteBatch", "NewRowGroup", "Close", "File", "Fault")
     out = []
@@ -350,7 +365,7 @@ def part_files(chk, tier, binary):
             lines.append(ln)
             qs[cid] = queries
             meta[cid] = {"part": "c", "t": c["t"], "layout": c["layout"], "mode": c["mode"], "order": c["order"],
-                         "file_hex": bytes(c["bytes"]).hex(), "rgs": c["rgs"]}
+                         "file_hex": bytes(c["bytes"]).hex(), "rgs": c["rgs"], "cols": c["cols"], "probes": c["probes"]}
         res, faults, leaky = common.run_harness_parallel(binary, lines, nproc=NPROC)
     finally:
         shutil.rmtree(fdir, ignore_errors=True)
@@ -429,7 +444,7 @@ def part_helpers(chk, tier, binary):
         ln, evs = helper_exec(cid, rec, tier, i)
         lines.append(ln)
         prepared[cid] = evs
-        meta[cid] = {"part": "d", "t": rec["t"], "stats": rec["s"], "line": ln if len(ln) < 20000 else ln[:20000] + "..."}
+        meta[cid] = {"part": "d", "t": rec["t"], "stats": rec["s"], "rec": rec, "idx": i}
     res, faults, leaky = common.run_harness_parallel(binary, lines, nproc=NPROC)
     execs, n = [], 0
     for cid, evs in prepared.items():
@@ -451,6 +466,51 @@ def part_helpers(chk, tier, binary):
 
 
 # --------------------------------------------------------------------------------------------
+def replay_case(chk, tier, path):
+    """Re-execute the single case of a replay file through the same pipeline."""
+    with open(path) as fh:
+        rep = json.load(fh)["case"]
+    if "witnesses" in rep:
+        rep = list(rep["witnesses"].values())[0]
+    binary = common.build_harness("h_stats")
+    part = rep.get("part")
+    if part == "a":
+        execs, meta, _, _ = wcommon.run_histories(chk, [rep["ops"]], [(rep["codec"], rep["page"])], modes=("f",), with_file=True, nproc=1, label="a")
+        execs = [[e for e in ex if e.get("e") in ("Create", "WriteBatch", "NewRowGroup", "Close", "File", "Fault")] for ex in execs]
+        meta = {cid: {"part": "a", "ops": o, "codec": c, "page": p} for cid, (o, c, p) in meta.items()}
+    elif part == "b":
+        ln = builder_line("b0", rep["case"], False)
+        res, faults, leaky = common.run_harness_leaks(binary, [ln], leak_every=1)
+        execs = [[builder_event("b0", rep["case"], res["b0"])]] if "b0" in res else []
+        execs += fault_execs(faults, leaky)
+        meta = {"b0": rep}
+    elif part == "c":
+        fdir = tempfile.mkdtemp(prefix="c16replay-", dir=common.scratch_root())
+        try:
+            path2 = os.path.join(fdir, "f0.parquet")
+            with open(path2, "wb") as fh:
+                fh.write(bytes.fromhex(rep["file_hex"]))
+            case = {"rgs": rep["rgs"], "cols": rep["cols"], "probes": rep["probes"]}
+            ln, queries = file_line("f0", path2, case)
+            res, faults, leaky = common.run_harness_leaks(binary, [ln], leak_every=1)
+        finally:
+            shutil.rmtree(fdir, ignore_errors=True)
+        execs = [file_events("f0", case, queries, res["f0"])] if "f0" in res else []
+        execs += fault_execs(faults, leaky)
+        meta = {"f0": rep}
+    elif part == "d":
+        ln, evs = helper_exec("h0", rep["rec"], "thorough", rep.get("idx", 0))
+        res, faults, leaky = common.run_harness_leaks(binary, [ln], leak_every=1)
+        filled = helper_fill(evs, res["h0"]) if "h0" in res else None
+        execs = [filled] if filled else []
+        execs += fault_execs(faults, leaky)
+        meta = {"h0": rep}
+    else:
+        raise common.InfraError("replay file %s has no replayable case" % path)
+    chk.count(("replay", path), True)
+    return execs, meta, {"replay": {"file": path, "executions": len(execs)}}
+
+
 def run(chk, tier, replay):
     chk.assumptions += [
         "Orders: INT32/INT64 signed, BOOLEAN false<true, BYTE_ARRAY/FIXED_LEN_BYTE_ARRAY unsigned lexicographic (prefix first); "
@@ -467,12 +527,16 @@ def run(chk, tier, replay):
     sc.start()
     binary = common.build_harness("h_stats")
     execs, meta, parts = [], {}, {}
-    for name, fn in (("b_builder", lambda: part_builder(chk, tier, binary)),
-                     ("d_helpers", lambda: part_helpers(chk, tier, binary)),
-                     ("c_reader", lambda: part_files(chk, tier, binary)),
-                     ("a_writer", lambda: part_writer(chk, tier))):
+    plan = (("b_builder", lambda: part_builder(chk, tier, binary)),
+            ("d_helpers", lambda: part_helpers(chk, tier, binary)),
+            ("c_reader", lambda: part_files(chk, tier, binary)),
+            ("a_writer", lambda: part_writer(chk, tier)))
+    if replay:
+        plan = (("replay", lambda: replay_case(chk, tier, replay)),)
+    for name, fn in plan:
         t1 = time.time()
         ex, m, info = fn()
+        info = info.get("replay", info)
         info["gen_exec_s"] = round(time.time() - t1, 1)
         info["executions"] = len(ex)
         execs += ex
